@@ -61,6 +61,8 @@ def judge(src, expect):
 def _case(c):
     tag, src, expect = c
     r = judge(src, expect)
+    if r is not None and tag.startswith("undefined-emptyloopbody-") and r[0] == "accepted":
+        return ("C11/undefined-name-in-body-of-loop-that-never-runs", r[1] + " ;; " + src.split("\n")[5] + " / " + src.split("\n")[6].strip())
     return None if r is None else ("C11/%s:%s" % (tag.split("-")[0] + "-" + tag.split("-")[1] if tag.count("-") else tag, r[0]), r[1])
 
 
@@ -138,6 +140,20 @@ def build(ctx, incdir):
         src = H + body + tpl.replace("U", "w") + "\n" + post
         ln, c = locate(src, "w", len((H + body).split("\n")))
         cases.append(("undefined-formerloopvar-" + slot, src, ("w", ln, c)))
+    # the body of a loop that runs zero times still uses the name
+    for hdr_, (slot, tpl) in itertools.product(("for int j in 2:2", "for int j in 3:0", "for float t in 1:1"), (("pos", "G(U) | 0"), ("kw", "G(k=U) | 0"), ("mode", "G | U"), ("idxexpr", "G(B[U]) | 0"), ("arith", "G(1+2*U) | 0"))):
+        body = "int array B =\n    1, 2\n"
+        src = H + body + hdr_ + "\n    " + tpl.replace("U", "uu") + "\nZ | 5\n"
+        ln, c = locate(src, "uu", len((H + body).split("\n")))
+        cases.append(("undefined-emptyloopbody-" + slot, src, ("uu", ln, c)))
+    # an included file declares variables with exactly these names: they are the included program's own and are not
+    # defined in the including script
+    for post, (slot, tpl), nm in itertools.product(posts[:2], UND, names):
+        incv = 'include "%s"\n' % os.path.join(incdir, "varsarr.xbb" if slot == "idxname" else "vars.xbb")
+        body = "int array B =\n    1, 2\n"
+        src = H + incv + "\n" + body + "Vars | 7\n" + tpl.replace("U", nm) + "\n" + post
+        ln, c = locate(src, nm, len((H + incv + "\n" + body).split("\n")))
+        cases.append(("undefined-declared-in-include-" + slot, src, (nm, ln, c)))
     for hdr, slot in (("target g (shots=uu)\n", "targetopt"), ("type t (k=[1, uu])\n", "typeopt"), ("target g (a=1, b=2*uu)\ntype t (c=1)\n", "targetopt2")):
         src = "name a\nversion 1.0\n" + hdr + "G | 0\n"
         ln, c = locate(src, "uu")
@@ -183,6 +199,8 @@ def write_includes(d):
     os.makedirs(d, exist_ok=True)
     open(os.path.join(d, "sub2.xbb"), "w").write("name Sub2\nversion 1.0\n\nG | 0\nH(0.5) | [1, 0]\n")
     open(os.path.join(d, "sparse.xbb"), "w").write("name Sparse\nversion 1.0\n\nG | 2\nH(0.5) | [0, 2]\n")
+    open(os.path.join(d, "vars.xbb"), "w").write("name Vars\nversion 1.0\n\nint uu = 1\nint y2 = 0\nint Sgate_x = 1\nint array B =\n    0, 1\nG(uu) | 0\n")
+    open(os.path.join(d, "varsarr.xbb"), "w").write("name Vars\nversion 1.0\n\nint array uu =\n    1, 0\nint array y2 =\n    0, 1\nint array Sgate_x =\n    1, 1\nG(uu[0]) | 0\n")
     open(os.path.join(d, "subp.xbb"), "w").write("name SubP\nversion 1.0\n\nG({a}) | 0\nH({b}, 2*{a}) | [1, 0]\n")
 
 
@@ -235,7 +253,7 @@ def replay(case):
         import re
         d = tempfile.mkdtemp(prefix="bbv-c11r-")
         write_includes(d)
-        src = re.sub(r'include "[^"]*/(sub2|subp|sparse)\.xbb"', lambda m: 'include "%s/%s.xbb"' % (d, m.group(1)), src)
+        src = re.sub(r'include "[^"]*/(sub2|subp|sparse|vars|varsarr)\.xbb"', lambda m: 'include "%s/%s.xbb"' % (d, m.group(1)), src)
     try:
         exp = case["expect"]
         r = judge(src, tuple(exp) if exp else None)
